@@ -185,6 +185,18 @@ pub async fn on_did_close_document(
     if module_info.is_none() {
         drop(analysis);
         let mut mut_analysis = context.analysis().write().await;
+        // a workspace reload can re-add the file between the two locks: decide again under the write lock
+        let still_not_a_module = mut_analysis.get_file_id(uri).is_some_and(|file_id| {
+            mut_analysis
+                .compilation
+                .get_db()
+                .get_module_index()
+                .get_module(file_id)
+                .is_none()
+        });
+        if !still_not_a_module {
+            return Some(());
+        }
         mut_analysis.remove_file_by_uri(uri);
         drop(mut_analysis);
 
